@@ -35,6 +35,9 @@ def jobs(ctx):
         if li and not ctx.thorough and strat not in ('sorted', 'timesorted'):
           continue
         out.append((p, (b, fb)))
+        if li == 0 and lag == 0 and strat in ('sorted', 'max', 'timesorted'):
+          # a cache query for a series that holds nothing, served on the reactor thread while the writer walks the cache
+          out.append((dict(p, reactor=[p['reactor'][0], ('query', 'zz'), p['reactor'][1], ('query', 'yy'), p['reactor'][2]]), (2 if strat == 'sorted' else ctx.pick(1, 2), fb)))
         if li == 0 and strat in ('timesorted', 'sorted'):
           # the stop as the daemon's own service object performs it (WriterService started for real; twisted's 'before
           # shutdown' triggers, then stopService), also after one of its periodic reload tasks has died
